@@ -136,6 +136,60 @@ pub proof fn lemma_replay_frame<A: Aggregate>(m: Map<Ident, Blob>, v: u64, b: Bl
         assert(stored::<A>(m1, (n - 1) as u64) == stored::<A>(m, (n - 1) as u64));
     }
 }
+pub proof fn lemma_replay_frame_snap<A: Aggregate>(m: Map<Ident, Blob>, b: Blob, h: MyHandle, n: nat)
+    ensures replay::<A>(m.insert(snap_key(), b), h, n) == replay::<A>(m, h, n)
+    decreases n
+{
+    broadcast use axiom_keys_distinct;
+    let m1 = m.insert(snap_key(), b);
+    if n <= 1 {
+        assert(cmd_key(0) != snap_key());
+        assert(stored::<A>(m1, 0) == stored::<A>(m, 0));
+    } else {
+        lemma_replay_frame_snap::<A>(m, b, h, (n - 1) as nat);
+        assert(cmd_key((n - 1) as u64) != snap_key());
+        assert(stored::<A>(m1, (n - 1) as u64) == stored::<A>(m, (n - 1) as u64));
+    }
+}
+/// an aggregate that is coherent with a log stays coherent when the log grows by a record at a free version, or by a snapshot
+pub proof fn lemma_coherent_frame<A: Aggregate>(xr: &A, m: Map<Ident, Blob>, v: u64, b: Blob, h: MyHandle)
+    requires coherent(*xr, m, h), covers(*xr, m), !m.contains_key(cmd_key(v))
+    ensures coherent(*xr, m.insert(cmd_key(v), b), h), covers(*xr, m.insert(cmd_key(v), b))
+{
+    let x = *xr;
+    if v < x.ver() { assert(m.contains_key(cmd_key(v))); }
+    lemma_replay_frame::<A>(m, v, b, h, x.ver() as nat);
+    assert forall |w: u64| w < x.ver() implies #[trigger] m.insert(cmd_key(v), b).contains_key(cmd_key(w)) by { assert(m.contains_key(cmd_key(w))); }
+}
+pub proof fn lemma_coherent_frame_snap<A: Aggregate>(xr: &A, m: Map<Ident, Blob>, b: Blob, h: MyHandle)
+    requires coherent(*xr, m, h), covers(*xr, m)
+    ensures coherent(*xr, m.insert(snap_key(), b), h), covers(*xr, m.insert(snap_key(), b))
+{
+    let x = *xr;
+    lemma_replay_frame_snap::<A>(m, b, h, x.ver() as nat);
+    assert forall |w: u64| w < x.ver() implies #[trigger] m.insert(snap_key(), b).contains_key(cmd_key(w)) by { assert(m.contains_key(cmd_key(w))); }
+}
+pub proof fn lemma_contiguous_insert(m: Map<Ident, Blob>, v: u64, b: Blob)
+    requires contiguous(m), !m.contains_key(cmd_key(v)), v < 0xffff_ffff_ffff_0000, forall |w: u64| w < v ==> #[trigger] m.contains_key(cmd_key(w))
+    ensures contiguous(m.insert(cmd_key(v), b))
+{
+    broadcast use axiom_keys_distinct;
+    let m1 = m.insert(cmd_key(v), b);
+    assert forall |x: u64, w: u64| #![trigger m1.contains_key(cmd_key(x)), m1.contains_key(cmd_key(w))] m1.contains_key(cmd_key(x)) && w < x implies m1.contains_key(cmd_key(w)) by {
+        if x == v { assert(m.contains_key(cmd_key(w))); } else { assert(m.contains_key(cmd_key(x))); if w != v { assert(m.contains_key(cmd_key(w))); } }
+    }
+    assert forall |x: u64| #[trigger] m1.contains_key(cmd_key(x)) implies x < 0xffff_ffff_ffff_0000 by { if x != v { assert(m.contains_key(cmd_key(x))); } }
+}
+pub proof fn lemma_contiguous_snap(m: Map<Ident, Blob>, b: Blob)
+    requires contiguous(m) ensures contiguous(m.insert(snap_key(), b))
+{
+    broadcast use axiom_keys_distinct;
+    let m1 = m.insert(snap_key(), b);
+    assert forall |x: u64, w: u64| #![trigger m1.contains_key(cmd_key(x)), m1.contains_key(cmd_key(w))] m1.contains_key(cmd_key(x)) && w < x implies m1.contains_key(cmd_key(w)) by {
+        assert(m.contains_key(cmd_key(x))); assert(m.contains_key(cmd_key(w)));
+    }
+    assert forall |x: u64| #[trigger] m1.contains_key(cmd_key(x)) implies x < 0xffff_ffff_ffff_0000 by { assert(m.contains_key(cmd_key(x))); }
+}
 /// the snapshot (if any) and the cached instance (if any) are coherent with the log -- the representation invariant of the store
 pub open spec fn store_inv<A: Aggregate>(cache: Map<MyHandle, Arc<A>>, m: Map<Ident, Blob>, h: MyHandle) -> bool {
     contiguous(m)
@@ -211,10 +265,78 @@ def build():
                      "<'a>(&mut self, kv: &mut Transaction, handle: &MyHandle, scope: Cow<'_, Ident>, cmd_opt: Option<(&A::Command, A::Context<'a>)>, save_snapshot: bool) -> (r: Result<Result<Arc<A>, A::Error>, storage::Error>)",
                      attrs=['#[verifier::exec_allows_no_decreases_clause]'],
                      subst=[('std::process::exit(1);', 'vx_exit();', 'R14'), ('Arc::make_mut(', 'vx_make_mut(', 'R14', 'all'), ('agg.as_ref()', 'vx_arc_ref(&agg)', 'R14')],
-                     requires=km,
-                     loops={0: {'invariant': [('log_untouched_while_catching_up', 'kvmap(*kv) == kvmap(*old(kv))')]}},
-                     ghost_start='broadcast use axiom_keys_distinct, axiom_serde_round_trip, axiom_apply_command;\n',
+                     requires=km + [('store_coherent_with_its_log', 'store_inv::<A>(old(self).cache@, kvmap(*old(kv)), *handle)'),
+                                     ('snapshot_requests_carry_no_command', 'save_snapshot ==> cmd_opt is None'),
+                                     ('log_not_full', '!kvmap(*old(kv)).contains_key(cmd_key(0xffff_ffff_fffe_ffff))')],
+                     loops={0: {'invariant': [
+                         ('log_untouched_while_catching_up', '''kvmap(*kv) == kvmap(*old(kv)) && contiguous(kvmap(*kv)) && self.cache@ == old(self).cache@
+                            && store_inv::<A>(old(self).cache@, kvmap(*old(kv)), *handle)'''),
+                         ('aggregate_is_the_replay_up_to_its_version', 'coherent(*aggregate, kvmap(*kv), *handle) && covers(*aggregate, kvmap(*kv))')],
+                         'ensures': [('nothing_left_to_replay', 'caught_up(*aggregate, kvmap(*kv))')]}},
+                     ghost=[(('loop_start', 0), 'let ghost vx_a0 = *aggregate; broadcast use axiom_keys_distinct, axiom_serde_round_trip, axiom_apply_command, axiom_ver_init, axiom_ver_bumped, axiom_ver_applied;'),
+                            (('after', 'aggregate.apply_command(command);', 0), '''proof {
+                                assert(kvmap(*kv).contains_key(cmd_key(vx_a0.ver())));
+                                lemma_ver_command_applied(vx_a0, command);
+                                assert(stored::<A>(kvmap(*kv), vx_a0.ver()) == Some(command));
+                                assert(replay::<A>(kvmap(*kv), *handle, (vx_a0.ver() + 1) as nat) == command_applied(replay::<A>(kvmap(*kv), *handle, vx_a0.ver() as nat), command));
+                            }'''),
+                            (('after', 'let version = aggregate.version();', 1), 'let ghost vx_a1 = *aggregate; let ghost vx_m1 = kvmap(*kv);'),
+                            (('after', 'kv.store(Some(&scope), &command_key, &processed)?;', 0), '''proof {
+                                broadcast use axiom_keys_distinct, axiom_serde_round_trip, axiom_apply_command, axiom_ver_init, axiom_ver_bumped, axiom_ver_applied;
+                                assert(vx_a1.ver() < 0xffff_ffff_ffff_0001) by { assert(vx_m1.contains_key(cmd_key((vx_a1.ver() - 1) as u64))); }
+                                lemma_ver_command_applied(vx_a1, processed);
+                                lemma_replay_frame::<A>(vx_m1, version, blob_of(processed), *handle, vx_a1.ver() as nat);
+                                assert(stored::<A>(kvmap(*kv), version) == Some(processed));
+                                assert(replay::<A>(kvmap(*kv), *handle, (version + 1) as nat) == command_applied(replay::<A>(kvmap(*kv), *handle, version as nat), processed));
+                                assert(!kvmap(*kv).contains_key(cmd_key((version + 1) as u64))) by {
+                                    if vx_m1.contains_key(cmd_key((version + 1) as u64)) { assert(vx_m1.contains_key(cmd_key(version))); }
+                                }
+                                assert(version < 0xffff_ffff_ffff_0000) by { if version >= 0xffff_ffff_ffff_0000 { assert(vx_m1.contains_key(cmd_key(0xffff_ffff_fffe_ffff))); } }
+                                lemma_contiguous_insert(vx_m1, version, blob_of(processed));
+                                if self.cache@.contains_key(*handle) { lemma_coherent_frame::<A>(&*self.cache@[*handle], vx_m1, version, blob_of(processed), *handle); }
+                                if vx_m1.contains_key(snap_key()) && parse::<A>(vx_m1[snap_key()]) is Some {
+                                    lemma_coherent_frame::<A>(&parse::<A>(vx_m1[snap_key()])->Some_0, vx_m1, version, blob_of(processed), *handle);
+                                    assert(kvmap(*kv)[snap_key()] == vx_m1[snap_key()]);
+                                }
+                                assert(store_inv::<A>(self.cache@, kvmap(*kv), *handle));
+                                assert(covers(*aggregate, kvmap(*kv)));
+                            }'''),
+                            (('before', 'if let Some(events) = processed.events() {', 0), '''proof {
+                                broadcast use axiom_keys_distinct, axiom_serde_round_trip, axiom_apply_command, axiom_ver_init, axiom_ver_bumped, axiom_ver_applied;
+                                assert(vx_a1.ver() < 0xffff_ffff_ffff_0001) by { assert(vx_m1.contains_key(cmd_key((vx_a1.ver() - 1) as u64))); }
+                                lemma_ver_command_applied(vx_a1, processed);
+                                lemma_replay_frame::<A>(vx_m1, version, blob_of(processed), *handle, vx_a1.ver() as nat);
+                                assert(stored::<A>(kvmap(*kv), version) == Some(processed));
+                                assert(replay::<A>(kvmap(*kv), *handle, (version + 1) as nat) == command_applied(replay::<A>(kvmap(*kv), *handle, version as nat), processed));
+                                assert(!kvmap(*kv).contains_key(cmd_key((version + 1) as u64))) by {
+                                    if vx_m1.contains_key(cmd_key((version + 1) as u64)) { assert(vx_m1.contains_key(cmd_key(version))); }
+                                }
+                                assert(version < 0xffff_ffff_ffff_0000) by { if version >= 0xffff_ffff_ffff_0000 { assert(vx_m1.contains_key(cmd_key(0xffff_ffff_fffe_ffff))); } }
+                                lemma_contiguous_insert(vx_m1, version, blob_of(processed));
+                                if self.cache@.contains_key(*handle) { lemma_coherent_frame::<A>(&*self.cache@[*handle], vx_m1, version, blob_of(processed), *handle); }
+                                if vx_m1.contains_key(snap_key()) && parse::<A>(vx_m1[snap_key()]) is Some {
+                                    lemma_coherent_frame::<A>(&parse::<A>(vx_m1[snap_key()])->Some_0, vx_m1, version, blob_of(processed), *handle);
+                                    assert(kvmap(*kv)[snap_key()] == vx_m1[snap_key()]);
+                                }
+                                assert(store_inv::<A>(self.cache@, kvmap(*kv), *handle));
+                                assert(covers(*aggregate, kvmap(*kv)));
+                            }'''),
+                            (('before', 'if changed_from_cached {', 0), '''proof { assert(store_inv::<A>(self.cache@, kvmap(*kv), *handle));
+                                assert(changed_from_cached ==> coherent(*agg, kvmap(*kv), *handle) && covers(*agg, kvmap(*kv))); }'''),
+                            (('before', 'if save_snapshot {', 0), 'let ghost vx_m2 = kvmap(*kv); proof { assert(store_inv::<A>(self.cache@, vx_m2, *handle)); }'),
+                            (('before', 'if let Err(e) = res {', 0), '''proof { if save_snapshot {
+                                let b = kvmap(*kv)[snap_key()]; assert(kvmap(*kv) =~= vx_m2.insert(snap_key(), b));
+                                lemma_contiguous_snap(vx_m2, b);
+                                if self.cache@.contains_key(*handle) { lemma_coherent_frame_snap::<A>(&*self.cache@[*handle], vx_m2, b, *handle); }
+                                assert(parse::<A>(b) == Some(*agg));
+                                lemma_coherent_frame_snap::<A>(&*agg, vx_m2, b, *handle);
+                                lemma_replay_frame_snap::<A>(vx_m2, b, *handle, agg.ver() as nat); assert(cmd_key(agg.ver()) != snap_key());
+                            } }''')],
+                     ghost_start='broadcast use axiom_keys_distinct, axiom_serde_round_trip, axiom_apply_command, axiom_ver_init, axiom_ver_bumped, axiom_ver_applied;\n',
                      ensures=[
+                         ('the_instance_handed_back_is_the_replay_of_the_whole_log', '''r is Ok && r->Ok_0 is Ok ==> coherent(*r->Ok_0->Ok_0, kvmap(*final(kv)), *handle)
+                            && caught_up(*r->Ok_0->Ok_0, kvmap(*final(kv)))'''),
+                         ('store_stays_coherent_with_its_log', 'store_inv::<A>(final(self).cache@, kvmap(*final(kv)), *handle)'),
                          ('a_read_leaves_no_trace', 'cmd_opt is None && !save_snapshot ==> kvmap(*final(kv)) == kvmap(*old(kv))'),
                          ('at_most_one_record_at_a_free_version_for_this_command', '''!save_snapshot ==> kvmap(*final(kv)) == kvmap(*old(kv))
                             || (cmd_opt is Some && exists |v: u64, c: StoredCommand<A>| #![trigger kvmap(*old(kv)).insert(cmd_key(v), blob_of(c))]
